@@ -23,8 +23,8 @@ fn range(ty: Option<&str>, tag: &str, extra: &str) -> Val {
     })
 }
 
-pub const KINDS: [&str; 24] = [
-    "fk_two_hops_plural", "fk_two_hops_range", "plural_plain", "plural_other_plain", "range_plain", "string", "var_x", "var_y_number", "var_x_date", "comp_b", "comp_i_var_x", "comp_b_var_y", "comp_b_comp_i_var_w", "comp_b_twice", "range_i32", "range_u8", "range_f32", "plural", "fk_rename_plural", "fk_rename_range", "fk_lit_count", "null", "number", "bool",
+pub const KINDS: [&str; 26] = [
+    "plural_unused_form_var", "plural_unused_form_comp", "fk_two_hops_plural", "fk_two_hops_range", "plural_plain", "plural_other_plain", "range_plain", "string", "var_x", "var_y_number", "var_x_date", "comp_b", "comp_i_var_x", "comp_b_var_y", "comp_b_comp_i_var_w", "comp_b_twice", "range_i32", "range_u8", "range_f32", "plural", "fk_rename_plural", "fk_rename_range", "fk_lit_count", "null", "number", "bool",
 ];
 
 /// entries for key `k` of kind `kind` (plural adds two entries)
@@ -46,6 +46,18 @@ pub fn kind_entries(kind: &str, tag: &str) -> Vec<(String, Val)> {
         "range_f32" => one(range(Some("f32"), tag, "w")),
         "plural" => vec![("k_one".into(), s(vec![text(&format!("[{tag}.one]")), var("v")])), ("k_other".into(), s(vec![text(&format!("[{tag}.other]")), var("count")]))],
         // count-driven values whose texts hold no variable at all: the count is still a required argument
+        // a form the locale's rules never select (`_few` in en / fr / de) is still part of the value: what only
+        // it needs is required too
+        "plural_unused_form_var" => vec![
+            ("k_one".into(), s(vec![text(&format!("[{tag}.one]")), var("count")])),
+            ("k_few".into(), s(vec![text(&format!("[{tag}.few]")), var("only_in_few")])),
+            ("k_other".into(), st(&format!("[{tag}.other]"))),
+        ],
+        "plural_unused_form_comp" => vec![
+            ("k_one".into(), st(&format!("[{tag}.one]"))),
+            ("k_many".into(), s(vec![comp("em", vec![text(&format!("[{tag}.many]"))])])),
+            ("k_other".into(), s(vec![text(&format!("[{tag}.other]")), var("count")])),
+        ],
         "plural_plain" => vec![("k_one".into(), st(&format!("[{tag}.one]"))), ("k_other".into(), st(&format!("[{tag}.other]")))],
         "plural_other_plain" => vec![("k_one".into(), s(vec![text(&format!("[{tag}.one]")), var("count")])), ("k_other".into(), st(&format!("[{tag}.other]")))],
         "range_plain" => one(Val::Range(RangeDecl { ty: Some("u8".into()), branches: vec![rb(st(&format!("[{tag}.0]")), vec![CountSpec::UInt(0)]), rb(st(&format!("[{tag}.fb]")), vec![])] })),
